@@ -527,6 +527,29 @@ func genWorld(r *simkit.RNG, sc *Scenario, k *gknobs) {
 				}
 			}
 		}
+		if fr := simkit.NewRNG(sc.Seed, "bw/twin-filelink"); fr.Chance(1, 5) {
+			// one twin holds a regular file, the other a link (to a file of the package with the
+			// same bytes) under that name: two different trees with equal bytes behind every name
+			src := &sc.Pkgs[a]
+			if !hasPath(src.Files, "copy.tf") && !hasPath(tw.Files, "copy.tf") && hasPath(src.Files, "main.tf") {
+				body := ""
+				for _, f := range src.Files {
+					if f.Path == "main.tf" {
+						body = f.Body
+					}
+				}
+				same := true
+				for _, f := range tw.Files {
+					if f.Path == "main.tf" && f.Body != body {
+						same = false
+					}
+				}
+				if same {
+					src.Files = append(src.Files, PFile{Path: "copy.tf", Kind: "file", Body: body, Mode: 0o644})
+					tw.Files = append(tw.Files, PFile{Path: "copy.tf", Kind: "link", Target: "main.tf"})
+				}
+			}
+		}
 		if lr := simkit.NewRNG(sc.Seed, "bw/twin-link"); k.hostileTrees && lr.Chance(1, 2) {
 			// the twin delivers one file as a link to a file outside the bundle that holds the
 			// same bytes: hashed through the link the two trees are equal, but the twin must be refused
